@@ -189,7 +189,11 @@ def case_correction(col, p):
     holder = {}
 
     def model(params, ns, pts):
-        return dadi.Spectrum(holder['data'].copy(), mask_corners=False)
+        # the model hands out ONE persistent spectrum per model value (a memoising model does): the wrapper must leave it as it is
+        if holder.get('fs_of') is not holder['data']:
+            holder['fs'] = dadi.Spectrum(holder['data'].copy(), mask_corners=False)
+            holder['fs_of'] = holder['data']
+        return holder['fs']
     np.random.seed(p.get('seed', 0) + 7)
     LP.rng = np.random.default_rng(p.get('seed', 0) + 7)
     if p.get('prehistory'):
@@ -214,6 +218,15 @@ def case_correction(col, p):
         cnt += 1
         od = np.asarray(getattr(out, 'data', out), dtype=float)
         info = dict(p, unit=np.unravel_index(j, shape))
+        if not (np.array_equal(np.asarray(holder['fs'].data), holder['data']) and not np.ma.getmaskarray(holder['fs']).any()):
+            col.violation('C18:make_low_pass_func:model_spectrum_modified', info, {'total_now': float(np.asarray(holder['fs'].data).sum())})
+            holder['fs_of'] = None
+        elif j % 3 == 0:
+            # a second correction of the same model spectrum gives the same answer
+            out2 = f(None, list(nsub), None)
+            col.tick(transitions=1)
+            if not np.array_equal(np.asarray(getattr(out2, 'data', out2), dtype=float), od, equal_nan=True):
+                col.violation('C18:make_low_pass_func:second_correction_differs', info, '')
         if od.shape != tuple(n + 1 for n in nsub) or not np.isfinite(od).all():
             col.violation('C18:make_low_pass_func:bad_output', info, {'shape': od.shape, 'finite': bool(np.isfinite(od).all())})
             continue
